@@ -119,6 +119,8 @@ Ranges == {RangeHdr(kd, "var", f[1], f[2]) : kd \in {"slice", "array", "string"}
      \* the operand has a NAMED type (type strT string, ...): same meaning as the underlying type
      \cup {RangeHdr(kd, "named", "def", "def") : kd \in {"slice", "array", "string"}}
      \cup {RangeHdr(kd, "named", "def", "none") : kd \in {"int", "chan"}}
+     \* for kk64 = range 3  with  var kk64 int64  (kk = int(kk64) at the top of the body)
+     \cup {RangeHdr("intc", "var", "asg", "none")}
 Mut(op, j) == [k |-> "mut", op |-> op, j |-> j]
 VarK == [k |-> "var", n |-> "k"]
 VarV == [k |-> "var", n |-> "v"]
